@@ -887,9 +887,15 @@ func handleMessage(peer *Peer, m protocol.Message) error {
 			if n == uint32(length) && length > 0 {
 				peer.download.Accumulate(length)
 				peer.avgDownload.Accumulate(length)
+				// we only requested a single chunk, don't
+				// release any further ones if the peer sent
+				// us more than that.
+				l := uint32(length)
+				if cs := chunkSize(peer, c); l > cs {
+					l = cs
+				}
 				writeEvent(peer, TorData{peer,
-					m.Index, m.Begin,
-					uint32(length), complete})
+					m.Index, m.Begin, l, complete})
 				// TorData implies active
 			} else {
 				if err != nil {
